@@ -68,6 +68,9 @@ GroupOf(size, r) == CHOOSE g \in Partition(size) : r \in g
 ImplementsPartition(m, size) ==
   /\ \A r \in Residues : m[r] \in GroupOf(size, r)
   /\ \A r, q \in Residues : (m[r] = m[q]) <=> (GroupOf(size, r) = GroupOf(size, q))
+CanonMap(size) == [r \in Residues |-> CHOOSE x \in GroupOf(size, r) : TRUE]
+\* a user alphabet (a partial function given as a record/function) is acceptable iff it maps all 20 residues to residues
+UserAlphabetValid(ua) == \A r \in Residues : r \in DOMAIN ua /\ ua[r] \in Residues
 Reduce(m, seq) == [i \in 1..Len(seq) |-> m[seq[i]]]
 
 (***************************************************************************)
